@@ -10,6 +10,7 @@ import TonVerif.Proofs.Base64
 import TonVerif.Proofs.Address
 import TonVerif.Proofs.SrcB64
 import TonVerif.Generated.AddrTags
+import TonVerif.Proofs.SrcAddr
 
 namespace TonVerif.Properties.C13
 open TonVerif TonVerif.Model TonVerif.Model.Address TonVerif.Model.Base64
@@ -240,5 +241,85 @@ example : Generated.addrTag true false = 0x11 ∧ Generated.addrTag false false 
     Generated.b64Bounceable 0x00 false false = false := by decide
 
 end Src
+
+/-! ## WHOLE methods regenerated from the source (`Generated/AddrFull.lean`: `Address.to_str`, `is_b64`, `__eq__`, `__hash__`
+re-translated from boc/address.py on every run by harness/translate/addrfull.py)
+
+`Generated.AddrFull.to_str` is the method body statement by statement (raw form `f'{wc}:{hash.hex()}'`; tag byte, signed
+workchain byte, hash, CRC16, the two base64 alphabets); `is_b64 (addr := text) …` is the body of the `try` of `Address.is_b64` on an
+object whose attributes are given: base64 decode, tag / flag decoding, signed workchain byte, hash slice, CRC comparison; its result
+is the tuple `(hash_part, is_bounceable, is_test_only, wc)` left behind, `none` = raises OR returns `False` (both make `Address(text)`
+raise).  Hand models of the built-ins used: `Base64.encode` / `decodeUrlsafe`, `pyStrInt`, `hexChars`; `Model.crc16` is C18's
+regenerated CRC.  `Address.__init__` (isinstance dispatch) and `is_hex` stay hand model (`parse`, `isHex`) + correspondence. -/
+section SrcFull
+open TonVerif.Generated.AddrFull TonVerif.Proofs.SrcAddr
+
+/-- the regenerated methods ARE the hand model: `to_str` for every address and each of the 16 flag combinations (raw and the 8
+friendly variants), `is_b64` for every text on a fresh object, `==` and `__hash__` for every pair. -/
+theorem c13_src_fn_methods (a b : Addr) (uf url bo t : Bool) (s : List Char) (h0 : Bytes) (wc0 : Int) :
+    to_str (is_user_friendly := uf) (is_url_safe := url) (is_bounceable := bo) (is_test_only := t)
+      (self_wc := a.wc) (self_hash_part := a.hash) = toStr a uf url bo t ∧
+    is_b64 (addr := s) (self_hash_part := h0) (self_is_bounceable := false) (self_is_test_only := false) (self_wc := wc0) =
+      ((isB64 s).map fun x => (x.hash, x.bounceable, x.testOnly, x.wc)) ∧
+    Generated.AddrFull.eq (self_wc := a.wc) (self_hash_part := a.hash) (other := b) = some (Address.eq a b) ∧
+    Generated.AddrFull.hash (self_wc := a.wc) (self_hash_part := a.hash) = some (pyHash a) :=
+  ⟨src_to_str_eq a uf url bo t, src_is_b64_eq s h0 wc0, src_eq_eq a b, src_hash_eq a⟩
+
+/-- FRIENDLY ROUND TRIP for the regenerated code: for every workchain in -128..127, every 32-byte hash and each of the 8 variants
+the regenerated `to_str` returns a 48-character text on which the regenerated `is_b64` (fresh object, whatever its previous
+workchain / hash) leaves exactly this workchain, this hash and the requested flags. -/
+theorem c13_src_friendly_roundtrip (a : Addr) (hw : Bytes.WF a.hash) (hlen : a.hash.length = 32)
+    (hwc : -128 ≤ a.wc ∧ a.wc ≤ 127) (url b t : Bool) (h0 : Bytes) (wc0 : Int) :
+    ∃ s, to_str (is_user_friendly := true) (is_url_safe := url) (is_bounceable := b) (is_test_only := t)
+        (self_wc := a.wc) (self_hash_part := a.hash) = some s ∧ s.length = 48 ∧
+      is_b64 (addr := s) (self_hash_part := h0) (self_is_bounceable := false) (self_is_test_only := false) (self_wc := wc0) =
+        some (a.hash, b, t, a.wc) := by
+  obtain ⟨s, hs, hl, _⟩ := c13_friendly_roundtrip a hw hlen hwc url b t
+  refine ⟨s, by rw [src_to_str_eq]; exact hs, hl, ?_⟩
+  rw [toStr_friendly a url b t hw hwc] at hs
+  injection hs with hs
+  subst hs
+  rw [src_is_b64_eq, isB64_friendly a url b t hw hlen hwc]
+  rfl
+
+/-- SUBSTITUTION REJECTED for the regenerated code: any friendly text the regenerated `to_str` produces, with the character at
+any position `i < 48` replaced by another character of the same alphabet, makes the regenerated `is_b64` fail (raise or return
+`False`) — the CRC16 comparison of the source is what rejects it. -/
+theorem c13_src_substitution_rejected (a : Addr) (hw : Bytes.WF a.hash) (hlen : a.hash.length = 32)
+    (url b t : Bool) (s : List Char)
+    (hs : to_str (is_user_friendly := true) (is_url_safe := url) (is_bounceable := b) (is_test_only := t)
+      (self_wc := a.wc) (self_hash_part := a.hash) = some s)
+    (i : Nat) (hi : i < 48) (c' : Char) (hc : c' ∈ alphabet url) (hne : s[i]? ≠ some c') (h0 : Bytes) (wc0 : Int) :
+    is_b64 (addr := s.set i c') (self_hash_part := h0) (self_is_bounceable := false) (self_is_test_only := false) (self_wc := wc0) = none := by
+  rw [src_to_str_eq] at hs
+  have hp := c13_substitution_rejected a hw hlen url b t s hs i hi c' hc hne
+  rw [src_is_b64_eq]
+  unfold parse at hp
+  cases hh : isHex (s.set i c') with
+  | none => rw [hh] at hp; simp only at hp; rw [hp]; rfl
+  | some x => rw [hh] at hp; cases hp
+
+/-- equal addresses have equal hashes, for the regenerated `==` / `__hash__`. -/
+theorem c13_src_eq_hash (a b : Addr)
+    (h : Generated.AddrFull.eq (self_wc := a.wc) (self_hash_part := a.hash) (other := b) = some true) :
+    Generated.AddrFull.hash (self_wc := a.wc) (self_hash_part := a.hash) =
+      Generated.AddrFull.hash (self_wc := b.wc) (self_hash_part := b.hash) := by
+  rw [src_eq_eq] at h
+  rw [src_hash_eq, src_hash_eq, c13_eq_hash a b (by simpa using h)]
+
+/-- non-vacuity: the regenerated methods evaluated on the sample address: its bounceable url-safe text, the text parsed back, one
+substituted character rejected, the raw form. -/
+example : to_str (is_user_friendly := true) (is_url_safe := true) (is_bounceable := true) (is_test_only := false)
+      (self_wc := sample.wc) (self_hash_part := sample.hash) = some "Ef9VVVVVVVVVVVVVVVVVVVVVVVVVVVVVVVVVVVVVVVVVVbxn".toList ∧
+    is_b64 (addr := "Ef9VVVVVVVVVVVVVVVVVVVVVVVVVVVVVVVVVVVVVVVVVVbxn".toList) (self_hash_part := []) (self_is_bounceable := false)
+      (self_is_test_only := false) (self_wc := 7) = some (List.replicate 32 0x55, true, false, -1) ∧
+    is_b64 (addr := "Ef9VVVVVVVVVVVVVVVVVVVVVVVVVVVVVVVVVVVVVVVVVVbxn".toList.set 10 'W') (self_hash_part := []) (self_is_bounceable := false)
+      (self_is_test_only := false) (self_wc := 7) = none ∧
+    to_str (is_user_friendly := false) (is_url_safe := true) (is_bounceable := true) (is_test_only := false)
+      (self_wc := sample.wc) (self_hash_part := sample.hash) =
+      some "-1:5555555555555555555555555555555555555555555555555555555555555555".toList := by
+  decide +kernel
+
+end SrcFull
 
 end TonVerif.Properties.C13
